@@ -2,13 +2,14 @@
 import collections
 import copy
 import itertools
+import importlib
 import json
 import statistics
 
 import dataflows as DF
 from dataflows import Flow
 
-from .. import canon, fast, stepcorr as S  # noqa: F401
+from .. import pycorr, canon, fast, stepcorr as S  # noqa: F401
 from ..common import quiet
 
 NUM_AGGS = ['sum', 'avg', 'median', 'max', 'min']
@@ -282,6 +283,38 @@ def exhaustive_aggregators(ctx, pending):
                                 ('rows', [dict(target[0], out=got)], [])))
 
 
+def agg_direct(ctx, n, rng):
+    """the aggregator table itself (func folded over the non-null values, then finaliser) against the documented
+    aggregate, on value lists longer than the exhaustive sweep reaches; returns the first failure"""
+    rep = ctx.report
+    J = importlib.import_module('dataflows.processors.join')
+    first = None
+    for _ in range(n):
+        agg = rng.choice(NUM_AGGS + ANY_AGGS + ['counters'])
+        kind = 'x' if agg in NUM_AGGS else rng.choice(['x', 's'])
+        if agg == 'counters':
+            kind = 's'
+        pool = [0, 1, 2, 5, -3, 7, 10, -8, 100] if kind == 'x' else ['p', 'q', 'pq', 'r', 'a', 'B']
+        vals = [rng.choice(pool) for _ in range(rng.choice([1, 2, 3, 4, 5, 6, 7, 8, 9, 12]))]
+        case = {'aggregator': agg, 'values': vals, 'direct': True}
+        try:
+            state = None
+            for v in vals:
+                state = J.AGGREGATORS[agg].func(state, 1 if agg == 'count' else v)
+            got = norm_cell(J.AGGREGATORS[agg].finaliser(state), agg)
+        except Exception as e:  # noqa
+            rep.case('agg-direct:' + agg, case, nontrivial=False)
+            rep.fail('aggregate-direct:%s:raises' % agg, case, repr(e)[:300])
+            first = first or rep.oracle_failures[-1]
+            continue
+        want = norm_cell(spec_agg(agg, [{'v': v} for v in vals], 'v'))
+        rep.case('agg-direct:' + agg, case, key=[agg, vals, 'direct'])
+        if got != want:
+            rep.fail('aggregate-direct:%s' % agg, case, {'expected': canon._plain(want), 'got': canon._plain(got)})
+            first = first or rep.oracle_failures[-1]
+    return first
+
+
 def key_rendering(ctx):
     """the key is the rendered text: values that compare equal in Python but render differently (1.1 / 1.10, 1 / 1.0 /
     True, 0.0 / -0.0) are different keys; values that render alike are the same key"""
@@ -407,6 +440,7 @@ def run(ctx):
     for _ in range(ctx.n(500, 8000)):
         join_case(ctx, rng, pending)
     exhaustive_aggregators(ctx, pending)
+    agg_direct(ctx, ctx.n(400, 5000), ctx.rng('direct'))
     with quiet():
         typed_values(ctx)
         key_rendering(ctx)
@@ -421,6 +455,9 @@ def run(ctx):
 
     def search(disagreements):
         rng2 = ctx.rng('search')
+        o = agg_direct(ctx, 20000, rng2)
+        if o:
+            return {'signature': o['signature'], 'case': o['case'], 'detail': o['detail']}
         before = len(rep.oracle_failures)
         for _ in range(ctx.n(3000, 20000)):
             join_case(ctx, rng2, [])
@@ -428,6 +465,7 @@ def run(ctx):
                 o = rep.oracle_failures[before]
                 return {'signature': o['signature'], 'case': o['case'], 'detail': o['detail']}
         return None
+    pycorr.run(ctx)
     return ctx.finish(search=search)
 
 
